@@ -61,23 +61,17 @@ func binSample(c *fw.Ctx, res *fw.Result, idx int, tag string, files map[string]
 	var br fw.BinResult
 	if outFlag == "" {
 		// standard output is a small pipe with a slow reader (a pager, a throttled consumer)
-		br = fw.RunBinSlowPipe(bin, fullArgv, stdin, nil, d, 120*time.Second)
+		br = fw.RunBinSlowPipe(bin, fullArgv, stdin, nil, d, 40*time.Second)
 		if len(want) > 12288 {
 			res.Count("binary_stdout_runs_larger_than_3_pipe_buffers", 1)
 		}
 	} else {
-		br = fw.RunBin(bin, fullArgv, stdin, nil, d, 120*time.Second)
+		br = fw.RunBin(bin, fullArgv, stdin, nil, d, 40*time.Second)
 	}
 	res.Evals++
 	res.Count("binary_runs", 1)
 	if br.TimedOut {
-		if fw.AnalyseDump(br.Dump) == "deadlock" {
-			f := cloneFiles(files)
-			f["goroutines.txt"] = clipStr(br.Dump, 40000)
-			res.Fail("binary-deadlock:"+tag, fmt.Sprintf("gofasta %v never terminates: closed channel deadlock (the entry point with the same options returned)", argv), f, argv)
-			return
-		}
-		res.Inconclusive = append(res.Inconclusive, "binary watchdog fired")
+		binHang(res, br, tag, files, argv)
 		return
 	}
 	got := string(br.Stdout)
@@ -125,4 +119,17 @@ func spellMeasure(m string, idx int) string {
 		return strings.ToUpper(m[:1]) + m[1:]
 	}
 	return m
+}
+
+// binHang records a binary run that hit its watchdog: a goroutine dump in which every gofasta
+// goroutine is blocked on a channel is a violation (the command never terminates); anything
+// else is inconclusive.
+func binHang(res *fw.Result, br fw.BinResult, tag string, files map[string]string, argv []string) {
+	if fw.AnalyseDump(br.Dump) == "deadlock" {
+		f := cloneFiles(files)
+		f["goroutines.txt"] = clipStr(br.Dump, 40000)
+		res.Fail("binary-deadlock:"+tag, fmt.Sprintf("gofasta %v never terminates: closed channel deadlock", argv), f, argv)
+		return
+	}
+	res.Inconclusive = append(res.Inconclusive, "binary watchdog fired ("+tag+")")
 }
